@@ -26,9 +26,9 @@ from pathlib import Path
 
 from .common import Ctx
 from . import sched as S
-from .c03 import SPACES, apply_op
+from .c03 import SPACES, apply_op, BlockRecorder, compare_block_structure, _RecordingClock
 
-DRIVERS = ["drv_db"]
+DRIVERS = ["drv_db", "drv_e2e"]     # drv_e2e serves lean/Tup/Drv/Txn.lean (`txn blocks …`)
 EVIDENCE = dict(
     level="proof",
     trusted=[
@@ -106,19 +106,25 @@ def build_state(dbfile, c):
     m.close()
 
 
-def run_op(dbfile, c, die_before=None, die_after=False):
-    """runs the operation in THIS process; returns (result, statements). With die_before=k the process exits before statement k."""
+def run_op(dbfile, c, die_before=None, die_after=False, rec=None):
+    """runs the operation in THIS process; returns (result, statements). With die_before=k the process exits before statement k.
+    `rec` (a dict, dry run only) receives what the block-structure correspondence needs: the full statements, the
+    atomic blocks with "changed the database" flags (table dumps at every block boundary) and the clock value read."""
     im = _im()
     # clock and randomness are functions of the case only: identical in the dry run and in every crash run
     S.install_fakes()
     S.set_current(c.get("seed", 1), 1, 0, 0)
     m = im.IDManager(dbfile, max_ids_per_subspace=c.get("max_ids", 1024))
     stmts = []
+    recorder = BlockRecorder(m.conn, dbfile) if rec is not None else None
+    clock = _RecordingClock() if rec is not None else None      # same values as the installed fake, remembered
 
     def trace(sql):
         if die_before is not None and len(stmts) == die_before:
             os._exit(77)
         stmts.append(sql.split(None, 2)[0:2])
+        if recorder is not None:
+            recorder.before_statement(sql)
 
     m.conn.set_trace_callback(trace)
     try:
@@ -128,6 +134,9 @@ def run_op(dbfile, c, die_before=None, die_after=False):
     if die_after:
         os._exit(77)
     m.conn.set_trace_callback(None)
+    if recorder is not None:
+        rec.update(blocks=recorder.finish(), full=recorder.stmts, now_us=clock.first_us(), clock_reads=len(clock.log))
+        clock.uninstall()
     m.close()
     return r, stmts
 
@@ -176,9 +185,10 @@ def check_case(ctx: Ctx, c: dict):
         pid = os.fork()
         if pid == 0:
             try:
-                r, stmts = run_op(db0, c)
+                rec = {}
+                r, stmts = run_op(db0, c, rec=rec)
                 with open(os.path.join(td, "dry.json"), "w") as f:
-                    json.dump({"r": r if isinstance(r, (int, str, bool, type(None))) else repr(r), "stmts": stmts}, f)
+                    json.dump({"r": r if isinstance(r, (int, str, bool, type(None))) else repr(r), "stmts": stmts, "rec": rec}, f)
                 os._exit(0)
             except BaseException as e:
                 with open(os.path.join(td, "dry.err"), "w") as f:
@@ -193,6 +203,12 @@ def check_case(ctx: Ctx, c: dict):
         ctx.count(f"op:{c['op'][0]}")
         ctx.count(f"statements={n}")
         kinds = [" ".join(s) for s in dry["stmts"]]
+        # K: the atomic blocks of the real call (kind, changed-the-database) = the blocks of the transaction model
+        # (`Model.Txn.lone` on the same database, with the implementation's choices) — the granularity at which
+        # `crash_atomic_*` / `linearizable` are stated
+        rec = dry["rec"]
+        compare_block_structure(ctx, c, op=c["op"], max_ids=c.get("max_ids", 1024), pre=pre, post=post, result=dry["r"],
+                                blocks=rec["blocks"], stmts=rec["full"], now_us=rec["now_us"])
         # admissible intermediate states: after each completed internal cleanup of a large-subspace get_id
         ks = c.get("ks") or list(range(n + 1))
         for k in ks:
